@@ -135,6 +135,7 @@ def rule_apply(ctx):
     ctx.check(ok, "find_move:first-legal-move-matching", "find_move = get_legal_moves().into_iter().find(pred).ok_or(..)", fm.where(0), bad_what="find_move is `%s`" % txt[:160])
     preds = ix.closures_of(FIND)
     okp = False
+    detail = "(no predicate closure passed to find)"
     for cb in preds:
         csym = mir.Sym(cb, ix)
         rr = csym.local(0)
